@@ -88,11 +88,11 @@ class ProxiedCircuit(Circuit):
             block["ID"] = reverse_injections.get_original_id(packet_id)
             new_blocks.append(block)
 
-        # Sending a PacketAck with nothing in it would be suspicious
-        if not new_blocks:
-            return False
+        # Always install the filtered blocks: the caller still forwards the message when appended
+        # ACKs survive, and must not leak the untranslated (injected) IDs in that case.
         message["Packets"] = new_blocks
-        return True
+        # Sending a PacketAck with nothing in it would be suspicious
+        return bool(new_blocks)
 
     def _rewrite_start_ping_check(self, message: Message, fwd_injections):
         orig_id = message["PingID"]["OldestUnacked"]
